@@ -8,6 +8,8 @@ fields, (ii) give the interpreter result and final state the reference
 evaluator defines (C04's oracle), (iii) produce the same prebuilt instances
 apart from the recorded source text.
 '''
+import random
+
 from vf import oalmodel as om
 from vf import oalsyn
 from vf import pbgen
@@ -15,7 +17,7 @@ from vf.checks import c04, c05
 
 SHARDS = {'quick': 16, 'thorough': 64}
 TIMEOUT = {'quick': 1800, 'thorough': 7200}
-MUST_HIT = ['Case.invoke-variant', 'Case.parse-variant', 'Case.interpret-variant', 'Case.prebuild-variant', 'Case.select-many-upper',
+MUST_HIT = ['Case.variant-in-random-layout', 'Case.invoke-variant', 'Case.parse-variant', 'Case.interpret-variant', 'Case.prebuild-variant', 'Case.select-many-upper',
             'Case.boolean-literal-variant', 'Case.word-operator-variant']
 MUST_REACH = ['bridgepoint/oal.py:OALParser.t_ID', 'bridgepoint/interpret.py:ActionWalker.accept_SelectFromNode',
               'bridgepoint/interpret.py:ActionWalker.accept_SelectRelatedNode',
@@ -64,7 +66,12 @@ def parse_variants(ctx, rng):
     tree = g.program(depth=rng.choice((1, 2)))
     lower = om.render(tree, None, layout='canonical', case='lower', optional=True)
     for case in VARIANTS:
-        text = om.render(tree, rng, layout='canonical', case=case, optional=True)
+        if rng.random() < 0.5:
+            text = om.render(tree, rng, layout='canonical', case=case, optional=True)
+        else:
+            # any layout (blanks, tabs, line breaks - also inside "end if" -, comments, optional words)
+            text = om.render(tree, random.Random(rng.getrandbits(32)), layout='random', case=case, case_rng=rng)
+            ctx.hit('Case.variant-in-random-layout')
         ctx.hit('Case.parse-variant')
         try:
             got = oal.parse(text)
@@ -77,12 +84,13 @@ def parse_variants(ctx, rng):
 
 
 def interpret_variants(ctx, rng):
+    layout = rng.choice(('canonical', 'random'))
     state = rng.getstate()
     lower = None
     for case in ('lower',) + VARIANTS[:3]:
         rng.setstate(state)
         try:
-            text = c04.run_case(ctx_proxy(ctx), rng, case_policy=case)
+            text = c04.run_case(ctx_proxy(ctx), rng, case_policy=case, layout=layout)
         except c04.Mismatch as e:
             raise Mismatch('interpret/%s' % e.key, 'keyword case %s: %s' % (case, e.what))
         if text is None:
@@ -213,8 +221,13 @@ def prebuild_variants(ctx, rng, home):
     tree = g.program()
     ref = None
     lower = None
+    layout = rng.choice(('canonical', 'random'))
+    lseed = rng.getrandbits(32)
     for case in ('lower',) + VARIANTS:
-        text = om.render(tree, rng, layout='canonical', case=case, optional=True)
+        # the same layout for every variant (its generator starts from the same state): the texts differ in the
+        # letter case of keywords and in nothing else, so that positions agree as well
+        text = om.render(tree, random.Random(lseed), layout=layout, case=case, case_rng=rng,
+                         **({} if layout == 'random' else dict(optional=True)))
         m = c05.fresh_model()
         inst = pbgen.home_instance(m, home)
         inst.Action_Semantics_internal = text
